@@ -2683,7 +2683,7 @@ def _int_or_vec(f, arg, argname, nargs, nvals):
         arg = numpy.unique(arg)
         if arg[0] < 0 or arg[-1] >= nargs:
             raise IndexError('{} out of bounds'.format(argname))
-        return functools.reduce(numpy.union1d, map(f, arg))
+        return functools.reduce(numpy.union1d, map(f, arg), numpy.array([], dtype=int))
     raise IndexError('invalid {}'.format(argname))
 
 
